@@ -33,6 +33,7 @@ WITNESSES = {   # the witnesses of the *_refuted theorems of Props/C14.v, as sch
     "b": ("a.foo x:int = a.Foo;\naFoo y:int = AFoo;\na_foo z:int = A_foo;\n", B.SIG_B),
     "c": ("a.foo string:int = a.Foo;\n", B.SIG_C),
     "d": ("unused x:int = Unused;\n", B.SIG_D),
+    "e": ("rs.t {n:#} f:n.0?int = rs.T n;\n@read rs.fn m:# rsTF:m.1?int => rs.T m;\n", B.SIG_E),
 }
 
 
@@ -103,12 +104,10 @@ def plan_units(ctx):
     for name, files, prefix in corpus:
         osets = B.option_sets(prefix)
         names = list(osets)
-        if quick:
-            k = rng.randrange(len(names))
-            chosen = [names[k], names[(k + 1 + rng.randrange(len(names) - 1)) % len(names)]]
-        else:
-            chosen = names
-        for on in chosen:
+        # every option set on the rich repository schemas, also in the quick tier: code that only one
+        # option emits (random fillers, RPC handlers, byte versions, TL2, split packages) for every
+        # primitive and construct -- a template regression under one option shows up here
+        for on in names:
             add(name, "repo", files, on, osets[on])
         if not quick:
             add(name, "repo", files, "all", [o for on in names for o in osets[on]])
@@ -140,18 +139,37 @@ def plan_units(ctx):
         for on in chosen:
             add(f"mut{i}", "mutated", [p], on, osets[on], blocks=mg.kinds)
     # invalid schemas: the reject path
-    ninv = 10 if quick else 80
+    ninv = 2 * len(B.CORRUPTIONS) if quick else 8 * len(B.CORRUPTIONS)     # every kind of corruption, round robin
     for i in range(ninv):
         if rng.random() < 0.5:
             base = randschema.Gen(rng, ntypes=4).text()
         else:
             base = B.MutGen(rng).text(base_types=1)
-        text, how = B.corrupt(rng, base)
+        text, how = B.corrupt(rng, base, B.CORRUPTIONS[i % len(B.CORRUPTIONS)])
         p = d / f"inv{i}.tl"
         p.write_text(text)
         on = names[(i + ctx.seed) % 6]
-        add(f"inv{i}", "invalid", [p], on, osets[on], prev=(i % 2 == 0), blocks=[how])
+        add(f"inv{i}", "invalid", [p], on, osets[on], prev=((i // len(B.CORRUPTIONS) + i) % 2 == 0), blocks=[how])
     return jobs
+
+
+def explain_racc(name, structs):
+    """Set<GoType><F1>And<F2>... -> (GoType, [F1, F2, ...]) for the longest Go struct name of the unit that
+    fits; the field parts are identifiers (bit fields are not emitted, so they cannot be checked against
+    the struct).  None when no struct name fits."""
+    if not name.startswith("Set"):
+        return None
+    rest = name[3:]
+    best = None
+    for g in structs:
+        if rest.startswith(g) and len(rest) > len(g) and (best is None or len(g) > len(best)):
+            best = g
+    if best is None:
+        return None
+    parts = rest[len(best):].split("And")
+    if not all(re.fullmatch(r"[A-Z]\w*", p) for p in parts):
+        return None
+    return best, parts
 
 
 def field_specs(x):
@@ -160,7 +178,8 @@ def field_specs(x):
     for f in x.get("fields", []):
         nm = f.get("name") or ""
         mask = f.get("mask")
-        acc = (mask is not None and mask.get("kind") != "num") or f.get("tl2bit") is not None
+        # qt_struct.qtpl: no accessors without (mask or TL2 bit); none either when the mask is a constant
+        acc = (mask is not None or f.get("tl2bit") is not None) and not (mask is not None and mask.get("kind") == "num")
         k = ("N" if f.get("isBit") else "n") if not acc else ("b" if f.get("isBit") else "f")
         toks.append(f"{nm or '-'}:{k}")
         if nm:
@@ -246,8 +265,10 @@ def run(ctx):
             results.append(r)
         return r
 
-    # big repository builds first, then the rest in planned order
-    order = sorted(range(len(jobs)), key=lambda i: (0 if jobs[i]["kind"] in ("repo", "witness") else 1, i))
+    # cheap units first (rejected schemas need no build; the four tiny witnesses), then the big repository
+    # builds, then mutated and random schemas interleaved: whatever the budget cuts off is the tail
+    rank = {"invalid": 0, "witness": 0, "repo": 1, "mutated": 2, "random": 2}
+    order = sorted(range(len(jobs)), key=lambda i: (rank[jobs[i]["kind"]], i if rank[jobs[i]["kind"]] < 2 else int(re.sub(r"\D", "", jobs[i]["name"]) or 0), jobs[i]["kind"]))
     with ThreadPoolExecutor(max_workers=8) as ex:
         list(ex.map(work, [jobs[i] for i in order]))
 
@@ -289,6 +310,7 @@ def run(ctx):
     recs = []                     # (unit result, label, scan record, [candidate (toks, meta, instance)])
     struct_ix = {}                # struct op line -> index in mlines
     has_nat = set()               # (unit, TL name) with an instance that keeps nat parameters
+    scan_names = {}               # unit -> {Go struct name: scan record}
     for r in gen_ok:
         sc = scans.get(id(r))
         if not sc:
@@ -311,6 +333,7 @@ def run(ctx):
             if set(sc["helpers"]) != lists_out[2]:
                 mism.append(("corr:C14:names", f"helper identifiers of {label}", ",".join(sorted(lists_out[2] - set(sc['helpers']))) + " (model only)",
                              ",".join(sorted(set(sc["helpers"]) - lists_out[2])) + " (generated only)"))
+        scan_names[id(r)] = {rec["name"]: rec for rec in sc["structs"]}
         by_tl = {}
         owner = {}     # union element -> TL name of the union type (its code lives in the union's file)
         for x in (r.ins or []):
@@ -392,21 +415,30 @@ def run(ctx):
                 body = m[3:].split(" | ") if m.startswith("ok ") and m.count(" | ") == 2 else ["-", "-", "-"]
                 accs = [] if body[1] == "-" else body[1].split(",")
                 mf = [] if body[2] == "-" else body[2].split(",")
-                real_acc = [mm for mm in rec["methods"] if mm not in m_upper and mm in set(accs)] + \
-                           [mm for mm in rec["methods"] if mm not in m_upper and mm not in set(accs)]
+                nonfixed = [mm for mm in rec["methods"] if mm not in m_upper]
+                # a function also carries result-mask accessors Set<GoType><Fields> (value bool): every extra
+                # method of that shape is explained separately (racc op), the rest must be the model's accessors
+                extras_c = [mm for mm in nonfixed if mm not in set(accs) and x.get("isFunction") and mm.startswith("Set")]
+                dup_extras = [mm for mm in set(nonfixed) if nonfixed.count(mm) > 1 and x.get("isFunction")]
+                real_acc = [mm for mm in nonfixed if mm not in extras_c]
+                if dup_extras:      # a method declared twice: keep one as the accessor, the other is the extra
+                    for mm in dup_extras:
+                        last = len(real_acc) - 1 - real_acc[::-1].index(mm)
+                        del real_acc[last]
+                        extras_c.append(mm)
                 goside = f"ok {','.join(real_fields) or '-'} | {','.join(real_acc) or '-'}"
                 mside = f"ok {','.join(mf) or '-'} | {','.join(accs) or '-'}"
                 if first is None:
                     first = (line, mside, goside)
                 if mside == goside:
-                    hit = (line, toks, x, accs, mside, goside)
+                    hit = (line, toks, x, accs, mside, goside, extras_c)
                     break
             if hit is None:
                 names_stats["struct_no_matching_instance"] += 1
                 mism.append(("corr:C14:names", f"{label}:{rec['tlname']} ({rec['name']}): {trunc(first[0], 200)}", first[1], first[2]))
                 continue
-            line, toks, x, accs, mside, goside = hit
-            fixed = [mm for mm in rec["methods"] if mm not in set(accs)]
+            line, toks, x, accs, mside, goside, extras = hit
+            fixed = [mm for mm in rec["methods"] if mm not in set(accs) and mm not in set(extras)]
             seen_methods.update(fixed)
             if lists_out:
                 need = lists_out[3] if (id(r), rec["tlname"]) in has_nat else lists_out[4]
@@ -414,17 +446,33 @@ def run(ctx):
                     mism.append(("corr:C14:names", f"{label}:{rec['tlname']} ({rec['name']}): generated method set",
                                  "missing " + ",".join(sorted(need - set(fixed))) + " / not in the model's list " + ",".join(sorted(set(fixed) - m_upper)), ",".join(fixed)))
             blines.append(f"oblig_fields {','.join(fixed) or '-'} " + " ".join(toks))
-            bexpect.append(pred.setdefault(id(r), {}))
+            bexpect.append(("c", pred.setdefault(id(r), {}), None))
+            if extras:
+                blines.append(f"oblig_methods {','.join(extras)} " + " ".join(toks))
+                bexpect.append(("e", pred.setdefault(id(r), {}), None))
+                for ex_name in extras:      # Set<Go type><F1>And<F2>: result-mask accessor of a function
+                    expl = explain_racc(ex_name, scan_names.get(id(r), {}))
+                    if expl is None:
+                        mism.append(("corr:C14:names", f"{label}:{rec['tlname']} ({rec['name']}): method {ex_name}",
+                                     "no accessor of the model has this name", "generated"))
+                    else:
+                        blines.append(f"racc {expl[0]} {','.join(expl[1])}")
+                        bexpect.append(("racc", None, f"ok {ex_name}"))
             if len(samples) < 6 and accs and len(goside) < 300:
                 samples.append({"op": trunc(f"{label}:{rec['tlname']}: {line}", 200), "model": trunc(mside, 160), "go": trunc(goside, 160)})
     bo = model_run(blines)
     if bo:
-        for l, p, m in zip(blines, bexpect, bo):
+        for l, (cls, p, want), m in zip(blines, bexpect, bo):
+            if cls == "racc":
+                names_stats["racc"] = names_stats.get("racc", 0) + 1
+                if m != want:
+                    mism.append(("corr:C14:names", trunc(l, 160), m, want))
+                continue
             names_stats["oblig"] += 1
             if m == "ok false":
-                p["c"] = True
+                p[cls] = True
                 if os.environ.get("VERIF_DEBUG"):
-                    log(f"[oblig c false] {l}")
+                    log(f"[oblig {cls} false] {trunc(l, 300)}")
             elif m != "ok true":
                 mism.append(("corr:C14:names", trunc(l, 120), m, "ok true|false"))
     mlines = mlines + blines
@@ -472,7 +520,7 @@ def run(ctx):
         # model obligations vs observed class (non-split units that were scanned)
         if p is not None and r.rc == 0:
             got = {k for k, _ in r.classes}
-            pa, pb, pc, pd = (bool(p.get(k)) for k in "abcd")
+            pa, pb, pc, pd, pe = (bool(p.get(k)) for k in "abcde")
             why = None
             if ("a" in got) != pa:
                 why = f"file-name obligation: model {'violated' if pa else 'holds'}, build class a {'seen' if 'a' in got else 'not seen'}"
@@ -481,8 +529,10 @@ def run(ctx):
                     why = f"constants obligation: model {'violated' if pb else 'holds'}, build class b {'seen' if 'b' in got else 'not seen'}"
                 elif "c" in got and not pc:
                     why = "field/method clash in the build that the model does not predict"
-                elif (pc or pd) and not (got & {"c", "d"}):
-                    why = f"model predicts a clash in package internal (c={pc} d={pd}) but the build shows none"
+                elif "e" in got and not pe:
+                    why = "method declared twice in the build that the model does not predict"
+                elif (pc or pd or pe) and not (got & {"c", "d", "e"}):
+                    why = f"model predicts a clash in package internal (c={pc} d={pd} e={pe}) but the build shows none"
             if why:
                 mism.append(("corr:C14:names", f"{label}: obligations vs go build", why, f"outcome={r.outcome} classes={sorted(got)}"))
         if r.pkg is not None:
